@@ -198,7 +198,9 @@ class Prog:
       target = rng.choice(['K.two', 'K.Base'])
       kw = 'x'
       fac = rng.choice(['K.fresh', f'functools.partial(K.three, a={self.atom()})',
-                        'K.fresh_list', 'functools.partial(K.fresh, tag=\'g\')'])
+                        'K.fresh_list', 'functools.partial(K.fresh, tag=\'g\')',
+                        # factories whose bound arguments are positional only
+                        'functools.partial(K.fresh_scaled, 0.5, 2.0)', 'functools.partial(K.fresh_pair, 1)'])
       return f'arg_factory.partial({target}, {kw}={fac})'
     if r < 0.8 and self.prev:
       p = rng.choice(self.prev)
